@@ -12,6 +12,7 @@
 #include <stdlib.h>
 #include <string.h>
 #include <sys/mman.h>
+#include <stdio.h>
 #include <sys/stat.h>
 #include <unistd.h>
 
@@ -185,10 +186,15 @@ static void log_template(const char *t)
 	size_t slot = __atomic_fetch_add(&ntmpl, 1, __ATOMIC_RELAXED);
 	if (slot < 64) { size_t i = 0; for (; i < 255 && t[i]; i++) tmpl_log[slot][i] = t[i]; tmpl_log[slot][i] = 0; }	/* no libc call: TSan intercepts strncpy */
 }
+/* fault: another process publishes a different file under the name (rename) just before the next open() without
+ * O_CREAT reaches the kernel - i.e. after anything the caller has learnt about the path beforehand; one shot */
+static const char *swap_src;
+void sim_open_swap_with(const char *replacement) { swap_src = replacement; }
 int sim_open(const char *path, int flags, ...)
 {
 	mode_t mode = 0;
 	if ((flags & O_CREAT) || (flags & O_TMPFILE) == O_TMPFILE) { va_list ap; va_start(ap, flags); mode = va_arg(ap, mode_t); va_end(ap); }
+	if (swap_src && !(flags & O_CREAT)) { if (rename(swap_src, path) == 0) INC(open_swaps); swap_src = 0; }
 	int fd = open(path, flags, mode);
 	if ((flags & O_TMPFILE) == O_TMPFILE) {
 		/* an unnamed temporary file in directory `path`: a spill file like one from mkstemp, with nothing to unlink */
@@ -263,16 +269,20 @@ void *sim_mmap(void *addr, size_t len, int prot, int flags, int fd, off_t off)
 		if (p != MAP_FAILED) { INC(mmaps); INC(live_maps); if (track_maps) track_map(p, len); }
 		return p;
 	}
-	/* exact-size heap copy: any access before/after "the file's bytes" hits an ASan red zone */
-	uint8_t *p = malloc(len ? len : 1);
+	/* exact-size heap copy: any access before/after "the file's bytes" hits an ASan red zone.  "The file" is what the
+	 * descriptor refers to now: a request that is longer than the file gets the file's bytes and no more (a real
+	 * mapping would deliver SIGBUS or the tail of a page there) */
+	size_t avail = len;
+	{ struct stat sb; if (fstat(fd, &sb) == 0 && S_ISREG(sb.st_mode)) { avail = (off_t)sb.st_size > off ? (size_t)(sb.st_size - off) : 0; if (avail > len) avail = len; } }
+	uint8_t *p = malloc(avail ? avail : 1);
 	if (p == NULL) return MAP_FAILED;
 	size_t got = 0;
-	while (got < len) {
-		ssize_t r = pread(fd, p + got, len - got, off + (off_t)got);
+	while (got < avail) {
+		ssize_t r = pread(fd, p + got, avail - got, off + (off_t)got);
 		if (r <= 0) break;
 		got += (size_t)r;
 	}
-	if (got < len) memset(p + got, 0, len - got);
+	if (got < avail) memset(p + got, 0, avail - got);
 	INC(mmaps); INC(live_maps);
 	return p;
 }
